@@ -207,6 +207,12 @@ class Origins:
                 cur = {("elem", t, e["cidx"]) if not e.get("from_end") else ("elem", t) for t in cur}
                 continue
             if "sub" in e:
+                # `[a, b, rest @ ..]`: the tail from position `sub` (a whole-slice tail only; other sub-slices are opaque)
+                if e.get("from_end") and e.get("to") == 0:
+                    if e["sub"] > 0:
+                        cur = {("subslice", t, e["sub"]) for t in cur}
+                else:
+                    cur = {("unknown", "subslice") for t in cur}
                 continue
         return cur
 
@@ -393,7 +399,10 @@ class Origins:
             # skip(n), cloned() keep the base
             out = set()
             for a in first():
-                if a[0] in ITER_HEADS:
+                if a[0] == "subslice":
+                    # iterating the tail of a slice pattern = skipping the matched head
+                    out.add(("adapt", "skip", ("iter", a[1]), frozenset({("const", a[2])})))
+                elif a[0] in ITER_HEADS:
                     out.add(a)
                 else:
                     out.add(("iter", a))
